@@ -356,18 +356,15 @@ Proof.
     apply append_nonempty; discriminate.
 Qed.
 
-(* clone_as_symbol / clone_as_indexed: no assumptions passed => the source's assumptions *)
-Theorem clone_assumptions_partial op st src x y :
-  clone_src op = Some src -> (forall s d l sb a, op <> CloneFunction s d l sb a) ->
-  get_src st src = Some x -> snd (exec op st) = Some y ->
+(* all three clone helpers: no assumptions passed => the source's assumptions *)
+Theorem clone_assumptions op st src x y :
+  clone_src op = Some src -> get_src st src = Some x -> snd (exec op st) = Some y ->
   clone_assum op = [] -> oassum y = oassum x.
 Proof.
-  destruct op; cbn [clone_src clone_assum]; intros E; try discriminate; injection E as ->; intros NF G;
-    cbn [exec]; rewrite G; unfold new_symbol, new_function, new_indexed, mk_dimsym; intros Y A; subst a.
-  - destruct (with_subscript _ _ _) as [c l]. rewrite next_name_eq in Y. cbn [snd] in Y.
-    injection Y as <-. reflexivity.
-  - exfalso. eapply NF. reflexivity.
-  - rewrite next_name_eq in Y. cbn [snd] in Y. injection Y as <-. reflexivity.
+  destruct op; cbn [clone_src clone_assum]; intros E; try discriminate; injection E as ->; intros G;
+    cbn [exec]; rewrite G; unfold new_symbol, new_function, new_indexed, mk_dimsym; intros Y A; subst a;
+    try destruct (with_subscript _ _ _) as [c l]; rewrite next_name_eq in Y; cbn [snd] in Y;
+    injection Y as <-; reflexivity.
 Qed.
 
 (* passed assumptions replace the source's, for all three helpers *)
@@ -381,31 +378,15 @@ Proof.
     injection Y as <-; cbn [oassum]; destruct a; try reflexivity; congruence.
 Qed.
 
-(* the statement of the property at full strength (all three clone helpers) ... *)
-Definition clone_assumptions_full_statement : Prop :=
-  forall op st src x y,
-    clone_src op = Some src -> get_src st src = Some x -> snd (exec op st) = Some y ->
-    clone_assum op = [] -> oassum y = oassum x.
-
-(* ... is refuted by the faithful model: clone_as_function never reads source.assumptions0 *)
-Definition refute_store : store :=
+(* non-vacuity: a function cloned from a positive symbol is positive; passed assumptions win *)
+Definition clone_example_store : store :=
   run [NewSymbol (Some "x") dzero None [("positive", true)]] (mkstore [] []).
-Definition refute_op : sop := CloneFunction 0 None None None [].
 
-Theorem clone_assumptions_refuted :
-  exists op st src x y,
-    clone_src op = Some src /\ get_src st src = Some x /\ snd (exec op st) = Some y /\
-    clone_assum op = [] /\ oassum x = [("positive", true)] /\ oassum y = [].
-Proof.
-  exists refute_op, refute_store, 0%nat.
-  eexists. eexists. vm_compute. repeat split; reflexivity.
-Qed.
-
-Theorem clone_assumptions_full_statement_false : ~ clone_assumptions_full_statement.
-Proof.
-  intros F. destruct clone_assumptions_refuted as [op [st [src [x [y [A [B [C [D [E1 E2]]]]]]]]]].
-  specialize (F op st src x y A B C D). rewrite E1, E2 in F. discriminate.
-Qed.
+Example ex_clone_function_inherits :
+  option_map oassum (snd (exec (CloneFunction 0 None None None []) clone_example_store)) = Some [("positive", true)] /\
+  option_map oassum (snd (exec (CloneFunction 0 None None None [("real", true)]) clone_example_store)) = Some [("real", true)] /\
+  option_map oassum (snd (exec (CloneIndexed 0 None None []) clone_example_store)) = Some [("positive", true)].
+Proof. vm_compute. repeat split; reflexivity. Qed.
 
 (* ---------------------------------------------------------------------------------------- *)
 (* printing                                                                                   *)
